@@ -565,7 +565,21 @@ theorem intersectPair_ok (vr : Variant) (rf : Nat) {rec : Table → Nat → Nat 
       | (show MeetOk _ a b (if vr.partialIntersectKeepsLeft = true then _ else _)
          split
          · exact meetFallback_ok rf ha0 hb0 hneverfo
-         · exact meetPart_ok hrec ha0 hb0 hta htb hnever hneverfo)
+         · split
+           · exact meetPart_ok hrec ha0 hb0 hta htb hnever hneverfo
+           · -- the guarded arm: whatever `contains_cycle` answers, both answers are good
+             cases containsCycle vr T.never.1 a with
+             | none => intro T' r hr; simp at hr
+             | some ca =>
+               cases ca with
+               | true => exact meetFallback_ok rf ha0 hb0 hneverfo
+               | false =>
+                 cases containsCycle vr T.never.1 b with
+                 | none => intro T' r hr; simp at hr
+                 | some cb =>
+                   cases cb with
+                   | true => exact meetFallback_ok rf ha0 hb0 hneverfo
+                   | false => exact meetPart_ok hrec ha0 hb0 hta htb hnever hneverfo)
 
 /-! ### the loops of `intersect_types` -/
 
